@@ -227,6 +227,40 @@ class SubRerunScenario(ItemsScenario):
         return key, v
 
 
+class PolicyRerunScenario(RerunScenario):
+    """A with-items task with a retry policy exhausts its retries and is
+    rerun without reset: the new run of the task has its full retry budget
+    again (a rerun starts the task's policies afresh), so an attempt that
+    fails once more is retried.  `expect` = state of the root after one
+    rerun, `expect_none` = without any."""
+
+    def __init__(self, name, prog, expect='SUCCESS', expect_none='ERROR',
+                 **kw):
+        super(PolicyRerunScenario, self).__init__(name, prog, **kw)
+        self.expect, self.expect_none = expect, expect_none
+
+    def kwargs(self):
+        d = super(PolicyRerunScenario, self).kwargs()
+        d.update(expect=self.expect, expect_none=self.expect_none)
+        return d
+
+    def spec(self):
+        return ('checks.c12', 'PolicyRerunScenario', self.kwargs())
+
+    def check_terminal(self, snap, ctx):
+        key, v = wfscn.WfScenario.check_terminal(self, snap, ctx)
+        n = len(env.W.extra.get('cmds', []))
+        root = [w for w in snap['workflow_executions_v2']
+                if not w['task_execution_id']][0]
+        want = self.expect if n else self.expect_none
+        if root['state'] != want:
+            v.append('with-items task with retry, %d rerun(s) without reset: '
+                     'the run ended %s, expected %s (item runs: %s)'
+                     % (n, root['state'], want,
+                        sorted(env.W.runs.items())))
+        return key, v
+
+
 def programs():
     T, direct = wfgen.T, wfgen.direct
     C = wfgen.curated()
@@ -294,6 +328,19 @@ def scenarios(tier):
                            max_cmds=1, only_tasks=['s'], compare_ctx=False)
     scn.items_to_rerun = 1
     jobs.append((scn, 1 if quick else 2, 60 if quick else 1200, 1))
+    # policies survive a rerun without reset: retry budget and waits
+    for pol, res0, devs in (
+            ({'count': 1, 'delay': 0}, ['E', 'E', 'E', 'S'], 0),
+            ({'count': 2, 'delay': 0}, ['E', 'E', 'E', 'E', 'E', 'S'], 0)):
+        prog = make_prog(2, None, retry=pol)
+        prog['tasks']['a'].pop('on-complete')
+        prog['tasks']['a']['on-success'] = ['b']
+        scn = PolicyRerunScenario(
+            'items_retry%d/rerun_noreset' % pol['count'], prog,
+            results={'i0': res0, 'i1': ['S'], 'b': ['S']},
+            menu=['rerun_noreset'], max_cmds=1, only_tasks=['a'],
+            compare_ctx=False)
+        jobs.append((scn, 0 if quick else 1, 60 if quick else 1200, 1))
     # the same with a concurrency limit on the with-items task (the slot
     # accounting must survive a child that is repaired from the inside)
     for n, conc, o in ((2, 1, 'SE'), (2, 2, 'ES'), (3, 2, 'SSE'),
